@@ -3,6 +3,9 @@
 // Runs a REAL graph compiled from the working tree, in simulation:
 //     map    : replay(TSD<Int,TS<Int>> "a")                -> map_(probes, a)            -> record
 //     switch : replay(TS<Int> "k"), replay(TS<Int> "x")    -> switch_({default: probes}, k, x) -> record
+//     switchb / switchl : as switch, but the branch returns a STRUCTURAL result as is - to_tsb<{p1,p2}>(last, first) resp.
+//              to_tsl(last, first) of its probe outputs - so that the switch output forwards to the child terminal
+//              (`output_forwards_to_child_terminal`: activate_branch binds the output before it stops the outgoing branch)
 //     reduce : replay(TSD<Int,TS<Int>> "a")                -> reduce(combiner, a)         -> record   (no zero)
 //              combiner = the NODE rprobe0(lhs, rhs) for n = 1, the sub-graph rprobe0(lhs, rhs) -> rprobe1 -> rprobe2 otherwise;
 //              a combiner graph instance is named <ordinal>#1 (ordinal = order of its start attempt in the run), so
@@ -12,7 +15,7 @@
 // One output line per input line.
 //
 //   case <id>                     -> "case <id>"   (flushes a pending history first)
-//   cfg <map|switch|reduce> <n> <c> -> "ok" | "bad-op"    n = probes per child (1..3), c = cleanup_on_error (0|1)
+//   cfg <map|switch|switchb|switchl|reduce> <n> <c> -> "ok" | "bad-op"    n = probes per child (1..3), c = cleanup_on_error (0|1)
 //   fs <k>                        -> "ok"   the k-th probe start hook entered in this run throws (1-based, global count)
 //   fe <key> <i> <n>              -> "ok"   the n-th evaluation of probe i of the children of <key> throws (counted over generations)
 //   fx <key> <i>                  -> "ok"   every stop hook of probe i of the children of <key> throws
@@ -293,6 +296,41 @@ namespace
 
     WiredFn probes_fn(int n) { return n == 1 ? fn<GProbes<1>>() : n == 2 ? fn<GProbes<2>>() : fn<GProbes<3>>(); }
 
+    // structural branch results returned as is: the switch output forwards to the branch terminal
+    using SB = UnNamedTSB<Field<"p1", TS<Int>>, Field<"p2", TS<Int>>>;
+    template <int N>
+    struct GProbesB
+    {
+        static constexpr const char *name = N == 1 ? "hgv_dl_b1" : N == 2 ? "hgv_dl_b2" : "hgv_dl_b3";
+        static Port<SB> compose(Wiring &w, KP key, P ts)
+        {
+            P first = wire<Probe<0>>(w, key, ts);
+            P a     = first;
+            if constexpr (N >= 2) { a = wire<Probe<1>>(w, key, a); }
+            if constexpr (N >= 3) { a = wire<Probe<2>>(w, key, a); }
+            return stdlib::to_tsb<SB>(w, a, first);
+        }
+    };
+
+    using PSL = decltype(stdlib::to_tsl<TS<Int>>(std::declval<Wiring &>(), std::declval<const P &>(), std::declval<const P &>()));
+
+    template <int N>
+    struct GProbesL
+    {
+        static constexpr const char *name = N == 1 ? "hgv_dl_l1" : N == 2 ? "hgv_dl_l2" : "hgv_dl_l3";
+        static PSL compose(Wiring &w, KP key, P ts)
+        {
+            P first = wire<Probe<0>>(w, key, ts);
+            P a     = first;
+            if constexpr (N >= 2) { a = wire<Probe<1>>(w, key, a); }
+            if constexpr (N >= 3) { a = wire<Probe<2>>(w, key, a); }
+            return stdlib::to_tsl<TS<Int>>(w, a, first);
+        }
+    };
+
+    WiredFn probes_fn_b(int n) { return n == 1 ? fn<GProbesB<1>>() : n == 2 ? fn<GProbesB<2>>() : fn<GProbesB<3>>(); }
+    WiredFn probes_fn_l(int n) { return n == 1 ? fn<GProbesL<1>>() : n == 2 ? fn<GProbesL<2>>() : fn<GProbesL<3>>(); }
+
     template <int N>
     struct GComb
     {
@@ -417,6 +455,7 @@ namespace
     struct Cfg
     {
         bool is_switch{false};
+        int  sw_shape{0};   // 0 = TS<Int> result (owned output), 1 = to_tsb result, 2 = to_tsl result (forwarding output)
         bool is_reduce{false};
         int  nprobes{1};
         bool cleanup{true};
@@ -485,9 +524,25 @@ namespace
             auto k  = wire<stdlib::replay_impl, TS<Int>>(w, Str{"hgv::k"});
             auto x  = wire<stdlib::replay_impl, TS<Int>>(w, Str{"hgv::x"});
             stdlib::SwitchCases cases;
-            cases.default_branch = probes_fn(cfg.nprobes);
-            auto sw = wire<stdlib::switch_>(w, k, std::move(cases), x).template as<TS<Int>>();
-            wire<stdlib::dense_record_impl>(w, sw, Str{"hgv::out"});
+            if (cfg.sw_shape == 1)
+            {
+                cases.default_branch = probes_fn_b(cfg.nprobes);
+                auto sw = wire<stdlib::switch_>(w, k, std::move(cases), x).template as<SB>();
+                auto p1 = wire<stdlib::getitem_>(w, sw, Str{"p1"}).template as<TS<Int>>();
+                wire<stdlib::dense_record_impl>(w, p1, Str{"hgv::out"});
+            }
+            else if (cfg.sw_shape == 2)
+            {
+                cases.default_branch = probes_fn_l(cfg.nprobes);
+                PSL  sw{w, wire<stdlib::switch_>(w, k, std::move(cases), x).erased()};
+                wire<stdlib::dense_record_impl>(w, sw, Str{"hgv::out"});
+            }
+            else
+            {
+                cases.default_branch = probes_fn(cfg.nprobes);
+                auto sw = wire<stdlib::switch_>(w, k, std::move(cases), x).template as<TS<Int>>();
+                wire<stdlib::dense_record_impl>(w, sw, Str{"hgv::out"});
+            }
             Int v = 0;
             for (const auto &ops : cycles)
             {
@@ -605,9 +660,10 @@ int main()
             {
                 flush(false);
                 Cfg  c;
-                bool ok     = (w[1] == "map" || w[1] == "switch" || w[1] == "reduce") &&
+                bool ok     = (w[1] == "map" || w[1] == "switch" || w[1] == "switchb" || w[1] == "switchl" || w[1] == "reduce") &&
                           (w[2] == "1" || w[2] == "2" || w[2] == "3") && (w[3] == "0" || w[3] == "1");
-                c.is_switch = w[1] == "switch";
+                c.is_switch = w[1] == "switch" || w[1] == "switchb" || w[1] == "switchl";
+                c.sw_shape  = w[1] == "switchb" ? 1 : w[1] == "switchl" ? 2 : 0;
                 c.is_reduce = w[1] == "reduce";
                 c.nprobes   = ok ? static_cast<int>(to_i(w[2])) : 1;
                 c.cleanup   = w[3] == "1";
